@@ -58,6 +58,7 @@ def run(chk):
     cs = CaseSet("c02")
     plan = []
     for wi in range(nworlds):
+        rng.seed("%d/c02-1/%d" % (chk.seed, wi))      # every world has its own stream: families do not disturb each other
         modelled = rng.random() < 0.6
         wj, sph = (area_world if modelled else any_world)(rng, nfeat=rng.randint(1, 6), cross=False)
         wj.pop("force surface temperature", None)
@@ -93,6 +94,7 @@ def run(chk):
     from wbgen import Gen
     from worlds import line_world
     for wi in range(12 if chk.tier == "quick" else 150):
+        rng.seed("%d/c02-2/%d" % (chk.seed, wi))      # every world has its own stream: families do not disturb each other
         wj, sph, lf = line_world(rng, spherical=False, straight=rng.random() < 0.5, uniform_sections=rng.random() < 0.5,
                                  allow_mass_conserving=False, extra_area=1.0)
         gg = Gen(rng)
@@ -128,6 +130,7 @@ def run(chk):
     # (g) a plume painted over an area feature, every composition / temperature operation, compositions the plume does not list
     from qgen import TOP
     for wi in range(10 if chk.tier == "quick" else 120):
+        rng.seed("%d/c02-3/%d" % (chk.seed, wi))      # every world has its own stream: families do not disturb each other
         gg = Gen(rng)
         base = gg.area_feature("below", False, kinds=("mantle layer", "continental plate"), centre=(0.0, 0.0), size=9e5, depth_arrays=0)
         base.pop("min depth", None)
